@@ -490,7 +490,8 @@ def gallina_state(st):
 
 def _run_own(ctx):
     ctx.level = "proof"
-    proved = vlib.prove(ctx, ["Properties_C14.v"], facts=["msg", "msgtables"])
+    proved = vlib.prove(ctx, ["Properties_C14.v"], facts=["msg", "msgtables", "msgclient"])
+    ctx.c14_proved = proved
     ctx.log("proofs:", "ok" if proved else "BROKEN: " + getattr(ctx, "broken_obligation", "?"))
     ctx.cov["rule"] = ("proof: Properties_C14.v over MsgModel with constants, widths, sizeof(addr) and the measured addr_len "
                        "bound regenerated from m_msg.[ch]; correspondence: same case lines through /repo's m_msg.c "
@@ -501,6 +502,7 @@ def _run_own(ctx):
                        "nested headers, allocator refusals, maxlen edges, MUNGE_MAXIMUM_REQ_LEN edge; non-trivial = "
                        "every case (distinct by content)")
     oracle = vlib.build_oracle(ctx, "msg")
+    ctx.c14_oracle = oracle
     R_ = vlib.REPO
     src = [os.path.join(vlib.HARNESS, "msg_harness.c")] + [os.path.join(R_, p) for p in (
         "src/libcommon/m_msg.c", "src/libcommon/fd.c", "src/libcommon/str.c", "src/libmunge/strerror.c")]
@@ -520,8 +522,10 @@ def _run_own(ctx):
     cases = gen_cases(ctx)
     if ctx.replay:
         r = json.load(open(ctx.replay))
-        if "case_line" in r:
+        if r.get("case_line", "")[:2] in ("S ", "R "):
             cases = [("replay", r["case_line"])]
+        elif r.get("case_line", "")[:2] in ("D ", "E "):
+            cases = cases[:1]                     # a client-side replay: see _client_phase
     lines = [l for (_, l) in cases]
     dist = {}
     for k, _ in cases:
@@ -675,6 +679,405 @@ def _run_own(ctx):
                       found_input=False)
 
 
+
+# =========================================================================================================
+# the client side: libmunge (m_msg_client_xfer, _decode_rsp / _encode_rsp) facing a hostile peer
+# =========================================================================================================
+ATTEMPTS = 5                    # MUNGE_SOCKET_RETRY_ATTEMPTS (the documented protocol constant; measured value in GenMsgClient.v)
+SENT32 = 0xFFFFFFFF             # UID_SENTINEL / GID_SENTINEL
+TYPE_NAME = {0: "UNDEF", 1: "HDR", 2: "ENC_REQ", 3: "ENC_RSP", 4: "DEC_REQ", 5: "DEC_RSP", 6: "AUTH_FD_REQ"}
+
+
+def unhex(t):
+    return b"" if t == "-" else bytes.fromhex(t)
+
+
+def cstr(b):
+    return None if b is None else b.split(b"\0", 1)[0]
+
+
+def s32(v):
+    return v - (1 << 32) if v >= (1 << 31) else v
+
+
+def xtok(t):
+    """'-' -> None, 'x<hex>' -> bytes, anything else (L) -> the token"""
+    if t == "-":
+        return None
+    if t.startswith("x"):
+        return bytes.fromhex(t[1:])
+    return t
+
+
+def D(cred, streams):
+    return "D %s %d%s" % (cred.hex(), len(streams), "".join(" " + (x.hex() if x else "-") for x in streams))
+
+
+def E(opts, payload, streams):
+    return "E %d %d %d %d %d %d %s %d%s" % (tuple(opts) + (payload.hex() if payload else "-", len(streams),
+                                            "".join(" " + (x.hex() if x else "-") for x in streams)))
+
+
+def parse_client_case(line):
+    f = line.split(" ")
+    if f[0] == "D":
+        n = int(f[2])
+        return dict(op="D", cred=unhex(f[1]), streams=[unhex(x) for x in f[3:3 + n]])
+    n = int(f[8])
+    return dict(op="E", opts=[int(x) for x in f[1:7]], payload=unhex(f[7]), streams=[unhex(x) for x in f[9:9 + n]])
+
+
+def client_request(c, k):
+    """the bytes the client must put on its k-th connection (k = 0, 1, ...)"""
+    if c["op"] == "D":
+        data = c["cred"] + b"\0"
+        body = struct.pack(">I", len(data)) + data
+        return header(4, len(body), retry=k) + body
+    ci, ma, zi, ttl, au, ag = c["opts"]
+    body = bytes([ci, ma, zi, 0]) + struct.pack(">IIII", ttl, au, ag, len(c["payload"])) + c["payload"]
+    return header(2, len(body), retry=k) + body
+
+
+def first_wellformed(c):
+    """(k, members) of the first of the ATTEMPTS responses that is a well-formed message of the expected type, else (None, None):
+    decided by the documented layout alone (ref_recv), independently of the Coq model and of the code"""
+    exp = 5 if c["op"] == "D" else 3
+    for k in range(ATTEMPTS):
+        s = c["streams"][k] if k < len(c["streams"]) else b""
+        st, _, _ = ref_recv(s, exp, 0, BIGHEAP, fresh())
+        if st is not None:
+            return k, st
+    return None, None
+
+
+def describe_stream(s):
+    if len(s) < HDR:
+        return "%d bytes (no complete header)" % len(s)
+    magic, ver, ty, retry, plen = struct.unpack(">IBBBI", s[:HDR])
+    return "header type %d (%s) magic %s version %d pkt_len %d, %d body bytes: %s" % (
+        ty, TYPE_NAME.get(ty, "?"), "ok" if magic == MAGIC else "0x%08x" % magic, ver, plen, len(s) - HDR, s[:80].hex())
+
+
+def parse_client_answer(c, out):
+    f = out.split(" ")
+    if f[0] != c["op"] or len(f) < 3 or f[1] == "F":
+        return None
+    try:
+        if c["op"] == "D":
+            keys = ["err", "cipher", "mac", "zip", "realm", "ttl", "addr", "time0", "time1", "auth_uid", "auth_gid", "len", "buf",
+                    "uid", "gid", "ctxerr", "errstr", "conns"]
+        else:
+            keys = ["err", "cred", "cipher", "mac", "zip", "realm", "ttl", "auth_uid", "auth_gid", "ctxerr", "errstr", "conns"]
+        a = {}
+        for k, t in zip(keys, f[1:1 + len(keys)]):
+            if k in ("realm", "buf", "errstr", "cred"):
+                a[k] = xtok(t)
+            elif k == "addr":
+                a[k] = unhex(t)
+            elif k == "conns":
+                a[k] = int(t.split("=")[1])
+            else:
+                a[k] = int(t)
+        a["reqs"] = [unhex(x) for x in f[1 + len(keys):]]
+        return a
+    except (ValueError, IndexError):
+        return None
+
+
+DEC_UNTOUCHED = dict(cipher=-1, mac=-1, zip=-1, realm=None, ttl=-1, addr=bytes(4), time0=-1, time1=-1, auth_uid=SENT32,
+                     auth_gid=SENT32, len=0, buf=None, uid=SENT32, gid=SENT32)
+
+
+def client_property_holds(line, out):
+    """None when the clause holds on this answer of libmunge, else the reason.  The clause: whatever the peer answers, the call
+    ends in an error that hands nothing to the caller, or in exactly the members of the first response that is a well-formed
+    message of the expected type; the requests on the wire are the documented encoding of the call's arguments."""
+    c = parse_client_case(line)
+    a = parse_client_answer(c, out)
+    if a is None:
+        return "malformed harness answer %r" % out[:120]
+    op = c["op"]
+    name = "munge_decode" if op == "D" else "munge_encode"
+    rsp = "DEC_RSP" if op == "D" else "ENC_RSP"
+    k, st = first_wellformed(c)
+    if a["ctxerr"] != a["err"]:
+        return "%s returned %d but the context reports error %d" % (name, a["err"], a["ctxerr"])
+    if op == "E":
+        ci, ma, zi, ttl, au, ag = c["opts"]
+        now = (a["cipher"], a["mac"], a["zip"], a["realm"], a["ttl"], a["auth_uid"], a["auth_gid"])
+        if now != (ci, ma, zi, None, ttl, au, ag):
+            return "munge_encode changed the options of the context: %r -> %r" % ((ci, ma, zi, None, ttl, au, ag), now)
+    for j, r in enumerate(a["reqs"]):
+        if r != client_request(c, j):
+            return "request on connection %d is not the documented encoding of the call (retry=%d): %s" % (j + 1, j, r[:64].hex())
+    if k is None or (op == "E" and st["data_len"] == 0):
+        why = ("none of the %d responses is a well-formed %s" % (ATTEMPTS, rsp)) if k is None else \
+            "the %s carries no credential (data_len = 0)" % rsp
+        first = describe_stream(c["streams"][0]) if c["streams"] else "nothing"
+        if a["err"] == 0:
+            got = ("uid=%d gid=%d len=%d" % (a["uid"], a["gid"], a["len"])) if op == "D" else "cred=%r" % a["cred"]
+            return "%s returned EMUNGE_SUCCESS (%s) although %s; response 1 = %s" % (name, got, why, first)
+        if op == "D":
+            for key, v in DEC_UNTOUCHED.items():
+                if a[key] != v:
+                    return "munge_decode failed (error %d) but handed %s=%r to the caller although %s; response 1 = %s" % (
+                        a["err"], key, a[key].hex() if isinstance(a[key], bytes) else a[key], why, first)
+        elif a["cred"] is not None:
+            return "munge_encode failed (error %d) but handed a credential to the caller although %s" % (a["err"], why)
+        want_conns = ATTEMPTS if k is None else k + 1
+        if a["conns"] != want_conns:
+            return "%d connections were made, expected %d" % (a["conns"], want_conns)
+        return None
+    # the k-th response is well-formed: the caller must get exactly its members
+    if a["conns"] != k + 1:
+        return "response %d is a well-formed %s but %d connections were made" % (k + 1, rsp, a["conns"])
+    want = dict(err=st["error_num"], errstr=None if st["error_num"] == 0 else cstr(st["error"]))
+    if op == "D":
+        want.update(cipher=st["cipher"], mac=st["mac"], zip=st["zip"], realm=cstr(st["realm"]), ttl=s32(st["ttl"]), addr=st["addr"],
+                    time0=st["time0"], time1=st["time1"], auth_uid=st["auth_uid"], auth_gid=st["auth_gid"],
+                    len=st["data_len"], buf=st["data"] if st["data_len"] else None, uid=st["cred_uid"], gid=st["cred_gid"])
+    else:
+        want.update(cred=cstr(st["data"]))
+    for key, v in want.items():
+        if a[key] != v:
+            f = lambda x: ("x" + x.hex()) if isinstance(x, bytes) else x
+            return "%s: %s is %r, response %d (a well-formed %s) says %r" % (name, key, f(a[key]), k + 1, rsp, f(v))
+    return None
+
+
+def normalize_client(impl, model):
+    """the wording of locally generated diagnostics is not modelled: where the model prints L, mask the implementation's string"""
+    a, b = impl.split(" "), model.split(" ")
+    if len(a) != len(b):
+        return impl
+    for i, (x, y) in enumerate(zip(a, b)):
+        if y == "L" and x.startswith("x") and i > 1:
+            a[i] = "L"
+    return " ".join(a)
+
+
+def rsp_wire(rng, code, retry=None, **over):
+    st = rnd_msg(rng, code, big=False)
+    st.update(over)
+    body = ref_pack(code, st)
+    return header(code, len(body), rng.getrandbits(8) if retry is None else retry) + body, st, body
+
+
+def rnd_cred(rng):
+    n = rng.choice([1, 2, 11, 40, rng.randrange(1, 200)])
+    return bytes(rng.choice(b"MUNGE:abcdefghijklmnopqrstuvwxyzABCDEFGHIJKLMNOPQRSTUVWXYZ0123456789+/=") for _ in range(n))
+
+
+def rnd_opts(rng):
+    return [rng.getrandbits(8), rng.getrandbits(8), rng.getrandbits(8), rng.choice([0, 1, 300, (1 << 31) - 1, rng.getrandbits(31)]),
+            rnd_u32(rng), rnd_u32(rng)]
+
+
+def gen_client_cases(ctx):
+    """responses a peer may send, aimed at the case splits of m_msg_recv / _msg_unpack / _decode_rsp / _encode_rsp: every header
+    type 0..255, bodies laid out as every message type, nested headers, truncation at every offset, every length field lying,
+    pkt_len lying, trailing bytes, bad magic / version, and scripts over the five attempts"""
+    rng = ctx.rng
+    cases = []
+    T = ctx.thorough
+
+    def add(kind, op, streams):
+        if op == "D":
+            cases.append((kind, D(rnd_cred(rng), streams)))
+        else:
+            cases.append((kind, E(rnd_opts(rng), rnd_bytes(rng, rng.choice([0, 0, 1, 5, 33, rng.randrange(0, 120)])), streams)))
+
+    EXP = {"D": 5, "E": 3}
+    for op in ("D", "E"):
+        exp = EXP[op]
+        # 1. well-formed responses of the expected type: every output of the call comes from the message
+        for i in range(120 if T else 14):
+            w, st, body = rsp_wire(rng, exp)
+            add("c-valid", op, [w])
+        for en in (0, 1, 7, 15, 16, 17, 200, 255):            # every kind of error_num the daemon (or anybody) may report
+            for el in (0, 1, 9):
+                for dl in (0, 1, 6):
+                    w, st, body = rsp_wire(rng, exp, error_num=en, error_len=el, error=rnd_bytes(rng, el) or None,
+                                           data_len=dl, data=rnd_bytes(rng, dl) or None)
+                    add("c-valid-error", op, [w])
+        w, st, body = rsp_wire(rng, exp, error_num=5, error_len=6, error=b"ab\0cd\0", data_len=7, data=b"xy\0z\0\0\0")
+        add("c-valid-nul", op, [w])                            # NUL bytes inside the strings
+        if op == "D":
+            for al in range(0, 5):
+                w, st, body = rsp_wire(rng, 5, addr_len=al, realm_len=rng.choice([0, 3]), realm=b"r\0z")
+                add("c-valid-addr", op, [w])
+            for ttl in (0, (1 << 31) - 1, 1 << 31, (1 << 32) - 1):
+                w, st, body = rsp_wire(rng, 5, ttl=ttl, time0=ttl, time1=(1 << 32) - 1, cred_uid=ttl, auth_gid=(1 << 32) - 1)
+                add("c-valid-u32edge", op, [w])
+        # 2. every header type code 0..255 x {the expected type's valid body, empty body, random body}
+        w_ok, st_ok, body_ok = rsp_wire(rng, exp, error_num=0)
+        for code in range(256):
+            add("c-anytype-validbody", op, [header(code, len(body_ok), rng.getrandbits(8)) + body_ok])
+            if T or code < 8 or rng.random() < 0.15:
+                add("c-anytype-empty", op, [header(code, 0)])
+                b = rnd_bytes(rng, rng.choice([1, 11, 40]))
+                add("c-anytype-random", op, [header(code, len(b)) + b])
+        # 3. every real type code as header x a valid body of every message type (the body fits another unpacker)
+        for hcode in range(0, 8):
+            for bcode in (2, 3, 4, 5, 6):
+                for i in range(4 if T else 1):
+                    _, _, b = rsp_wire(rng, bcode)
+                    add("c-crosstype", op, [header(hcode, len(b), rng.getrandbits(8)) + b])
+        # 4. nested headers: header type HDR whose body is a packed header naming any type (it rewrites type / retry / pkt_len),
+        #    alone and followed by a valid body of the expected type, inside a body of the right and of a lying length
+        for nested in list(range(0, 9)) + [255]:
+            for nplen in (0, 5, 1 << 31):
+                inner = header(nested, nplen, retry=rng.getrandbits(8))
+                add("c-nested", op, [header(1, len(inner)) + inner])
+                add("c-nested", op, [header(1, len(inner) + len(body_ok)) + inner + body_ok])
+            add("c-nested", op, [header(1, HDR) + header(nested, 0, magic=MAGIC + 1)])
+            add("c-nested", op, [header(1, HDR) + header(nested, 0, version=VERSION + 1)])
+            add("c-nested", op, [header(1, 4) + header(nested, 0)[:4]])
+        add("c-nested", op, [header(1, HDR) + header(1, HDR) + header(exp, 0)])
+        # 5. truncation: the stream ends at every offset; the header announces the truncated body
+        for i in range(6 if T else 1):
+            w, st, body = rsp_wire(rng, exp, error_num=rng.choice([0, 7]))
+            step = 1 if (T or len(w) < 90) else 2
+            for k in range(0, len(w), step):
+                add("c-short-stream", op, [w[:k]])
+            for k in range(0, len(body), step):
+                add("c-truncated-body", op, [header(exp, k) + body[:k]])
+        # 6. every length field lying (0, 1, exact-1, exact+1, 255, 2^31-1, 2^31, 2^32-1); pkt_len lying
+        for i in range(8 if T else 1):
+            w, st, body = rsp_wire(rng, exp)
+            for (off, wd, exact) in len_field_offsets(exp, st):
+                vals = [0, 1, exact - 1, exact + 1, 255] + ([(1 << 31) - 1, 1 << 31, (1 << 32) - 1] if wd == 4 else [4, 5, 128])
+                for v in vals:
+                    if v < 0 or (wd == 1 and v > 255):
+                        continue
+                    enc = bytes([v]) if wd == 1 else struct.pack(">I", v)
+                    for pad in (0, 64):
+                        b2 = body[:off] + enc + body[off + wd:] + rnd_bytes(rng, pad)
+                        add("c-lenfield", op, [header(exp, len(b2)) + b2])
+            for plen in (0, 1, len(body) - 1, len(body) + 1, len(body) + 9, 1 << 20, (1 << 31) - 1, 1 << 31, (1 << 32) - 1):
+                if plen >= 0:
+                    add("c-pktlen", op, [header(exp, plen) + body])
+        # 7. trailing bytes: after the body on the stream, and inside the body after the last field
+        for i in range(6 if T else 2):
+            w, st, body = rsp_wire(rng, exp)
+            add("c-trailing-stream", op, [w + rnd_bytes(rng, rng.randrange(1, 40))])
+            extra = rnd_bytes(rng, rng.randrange(1, 40))
+            add("c-trailing-body", op, [header(exp, len(body) + len(extra)) + body + extra])
+        # 8. header defects
+        for byte in range(5):
+            for bit in range(8):
+                h = bytearray(w_ok)
+                h[byte] ^= 1 << bit
+                add("c-hdr-bad", op, [bytes(h)])
+        # 9. scripts over the attempts: j failures of different kinds, then a well-formed response (taken iff j < ATTEMPTS)
+        bad = [b"", header(exp, 5), header(1, HDR) + header(exp, 0), header(exp ^ 6, len(body_ok)) + body_ok, w_ok[:-1],
+               header(exp, len(body_ok), magic=0) + body_ok, rnd_bytes(rng, 30)]
+        for j in range(0, 7):
+            for rep in range(3 if T else 1):
+                script = [rng.choice(bad) for _ in range(j)]
+                w, st, body = rsp_wire(rng, exp)
+                add("c-script", op, script + [w])
+        w2, _, _ = rsp_wire(rng, exp)
+        add("c-script", op, [w_ok, w2])                      # only the first answer counts
+        add("c-script", op, [])                              # the peer never answers
+        # 10. random streams with a plausible header
+        for i in range(2000 if T else 60):
+            n = rng.choice([0, 3, 11, 12, 20, 60, rng.randrange(0, 300)])
+            b = bytearray(rnd_bytes(rng, n))
+            if n >= HDR and rng.random() < 0.85:
+                b[0:6] = header(rng.choice([exp, exp, exp, 1, rng.randrange(0, 8)]), 0)[0:6]
+                if rng.random() < 0.7:
+                    b[7:11] = struct.pack(">I", n - HDR)
+            add("c-random", op, [bytes(b)])
+    return cases
+
+
+def _client_phase(ctx, oracle, proved):
+    """libmunge against a scripted hostile peer: model (extracted) vs /repo's libmunge, and the clause itself on libmunge's answers"""
+    R_ = vlib.REPO
+    src = [os.path.join(vlib.HARNESS, "msgclient_harness.c")]
+    src += [os.path.join(R_, "src/libmunge", f) for f in ("auth_send.c", "ctx.c", "decode.c", "encode.c", "m_msg_client.c", "strerror.c")]
+    src += [os.path.join(R_, "src/libcommon", f) for f in ("fd.c", "m_msg.c", "str.c")]
+    exe, err = vlib.cc(ctx, "msgclient", src, extra=["-Wl,--wrap=nanosleep,--wrap=connect,--wrap=malloc", "-fsanitize-recover=signed-integer-overflow"],
+                       libs=["-lpthread"])
+    if exe is None:
+        ctx.violation("client harness does not build against /repo's libmunge: " + err[-500:],
+                      {"obligation": "correspondence C14 client (build)", "stderr": err}, found_input=False)
+        return
+    cases = gen_client_cases(ctx)
+    if ctx.replay:
+        r = json.load(open(ctx.replay))
+        if r.get("case_line", "")[:2] in ("D ", "E "):
+            cases = [("replay", r["case_line"])]
+        elif "case_line" in r:
+            return
+    lines = [l for (_, l) in cases]
+    dist = ctx.cov.setdefault("input_distribution", {})
+    for k, _ in cases:
+        dist[k] = dist.get(k, 0) + 1
+    sock = os.path.join(ctx.tmp, "peer.sock")
+    rc2, mod, err2 = vlib.run_lines([oracle], lines, timeout=900)
+    if rc2 != 0 or len(mod) != len(lines):
+        ctx.violation("oracle (client side) failed to run: rc=%d %s" % (rc2, err2[-300:]), {"obligation": "oracle run"}, found_input=False)
+        return
+    rc, impl, stderr = vlib.run_lines([exe, sock], lines, timeout=900,
+                                      env={"ASAN_OPTIONS": "detect_leaks=1:abort_on_error=0:exitcode=99:allocator_may_return_null=1"})
+    ctx.log("client side: libmunge answered %d of %d scripted peers rc=%d" % (len(impl), len(lines), rc))
+    for l in lines:
+        ctx.count(l)
+    for i in (0, len(lines) // 2):
+        if i < len(lines):
+            ctx.sample(lines[i][:300])
+    if rc != 0 and len(impl) == len(lines) and "LeakSanitizer" in stderr:
+        sub = list(range(len(lines)))
+        while len(sub) > 1:
+            half = sub[:len(sub) // 2]
+            r1, _, e1 = vlib.run_lines([exe, sock], [lines[i] for i in half], timeout=300)
+            sub = half if (r1 != 0 and "LeakSanitizer" in e1) else sub[len(sub) // 2:]
+        r1, o1, e1 = vlib.run_lines([exe, sock], [lines[sub[0]]], timeout=60)
+        found = r1 != 0 and "LeakSanitizer" in e1
+        ctx.violation("libmunge loses memory on a hostile response (LeakSanitizer)%s" % (": case " + lines[sub[0]][:200] if found else ""),
+                      {"case_line": lines[sub[0]] if found else None, "stderr": (e1 if found else stderr)[-3000:]}, found_input=found)
+        return
+    if rc != 0 or len(impl) != len(lines):
+        idx = min(len(impl), len(lines) - 1)
+        c = parse_client_case(lines[idx])
+        ctx.violation("libmunge aborts under ASan/UBSan (or hangs) on a hostile response: %s; response 1 = %s" % (
+            lines[idx][:160], describe_stream(c["streams"][0]) if c["streams"] else "nothing"),
+            {"case_line": lines[idx], "case_kind": cases[idx][0], "stderr": stderr[-3000:], "rc": rc, "model": mod[idx]})
+        return
+    ub = [u for u in sorted(set(re.findall(r"[\w./]+:\d+:\d+: runtime error: [^\n]*", stderr))) if not KNOWN_UB.search(u)]
+    if ub:
+        ctx.violation("UBSan reports undefined behaviour in libmunge: " + ub[0], {"obligation": "no undefined behaviour", "reports": ub[:10]},
+                      found_input=False)
+    direct, mism = [], []
+    for i, l in enumerate(lines):
+        why = client_property_holds(l, impl[i])
+        if why:
+            direct.append((l, impl[i], why, cases[i][0]))
+        if normalize_client(impl[i], mod[i]) != mod[i]:
+            mism.append((l, impl[i], mod[i]))
+    ctx.cov["client_cases"] = len(lines)
+    ctx.cov["traces_validated_against_impl"] = ctx.cov.get("traces_validated_against_impl", 0) + len(lines)
+    ctx.log("client side: %d direct property failures, %d model/implementation mismatches" % (len(direct), len(mism)))
+    if direct:
+        direct.sort(key=lambda x: len(x[0]))                     # the shortest failing input first
+        l, o, why, kind = direct[0]
+        c = parse_client_case(l)
+        ctx.violation("%s: case %s -> %s (%d failing cases)" % (why, l[:200], o[:200], len(direct)),
+                      {"case_line": l, "case_kind": kind, "impl_output": o[:2000], "why": why, "n_failing": len(direct),
+                       "peer_script": [describe_stream(s) for s in c["streams"]],
+                       "call": "munge_decode(cred=%r)" % c["cred"] if c["op"] == "D" else "munge_encode(opts=%r, payload=%s)" % (c["opts"], c["payload"].hex()),
+                       "model_output": mod[lines.index(l)][:2000],
+                       "more": [(x[0][:300], x[1][:200], x[2]) for x in direct[1:6]]})
+    elif mism:
+        l, a, b = mism[0]
+        ctx.violation("client model and libmunge disagree on %d cases (first: %s impl=%s model=%s) but the property evaluated "
+                      "directly on libmunge's answers holds on all %d cases" % (len(mism), l[:200], a[:300], b[:300], len(lines)),
+                      {"obligation": "correspondence MsgClientModel ~ libmunge", "case_line": l, "impl": a, "model": b,
+                       "n_mismatches": len(mism)}, found_input=False)
+
+
 def is_d2(c):
     """addr_len of a DEC_RSP stream when it exceeds the member and the copy is reached, else 0"""
     if c["op"] != "R" or len(c["stream"]) < HDR or c["stream"][5] != 5:
@@ -694,5 +1097,7 @@ def run(ctx):
     """the property's own check, then the component check of the socket I/O loops (fd.c) that every request and reply of
     this property goes through: Properties_FD.v + correspondence FdModel ~ /repo's fd.c (tools/props/fd_common.py)"""
     _run_own(ctx)
+    if getattr(ctx, "c14_oracle", None):
+        _client_phase(ctx, ctx.c14_oracle, getattr(ctx, "c14_proved", False))
     from props import fd_common
     fd_common.fd_phase(ctx)
